@@ -155,6 +155,7 @@ package loadbalancer
 //@             !backend.IsHealthy && backend.UnhealthyUntil == now() + lb.healthChecks.passiveTimeout && failCount(lb, backend.Name) == 0
 //@             && has_bm(lb.metricsCollector, backend.Name) && !mirrorOf(lb, backend)
 //@   ensures counter_range: failCount(lb, backend.Name) >= 0 && failCount(lb, backend.Name) < lb.healthChecks.passiveThreshold
+//@   ensures other_counters_kept: forall n string :: {lb.healthChecks.unhealthyBackends[n]} n != backend.Name ==> failCount(lb, n) == old(failCount(lb, n))
 //@   ensures cells: bmCellsOK(lb.metricsCollector)
 //@   modifies backend.IsHealthy, backend.UnhealthyUntil, mapof(lb.healthChecks.unhealthyBackends), mapof(lb.metricsCollector.metrics.BackendMetrics), metrics.BackendMetrics.IsHealthy, metrics.BackendMetrics.LastHealthCheck
 
@@ -384,3 +385,99 @@ package loadbalancer
 //@   invariant kept: forall x int :: {backing(x, []*weightedBackend)} backing(x, []*weightedBackend) == old(backing(x, []*weightedBackend))
 //@   invariant others_kept: forall x int :: {backing(x, []*Backend)} preexisting(x) ==> backing(x, []*Backend) == old(backing(x, []*Backend))
 //@   decreases len(wrr.backends) - rangeindex
+
+// ---- accounting (C13) and breaker wiring (C07)
+// Established by package initialisation (errors.New returns a non-nil value); assumed here.
+//@ axiom errBackendFailure != nil
+//@ pred mtx(lb *LoadBalancer) *metrics.Metrics := lb.metricsCollector.metrics
+//@ pred outcomes(lb *LoadBalancer) int := mtx(lb).SuccessfulRequests + mtx(lb).FailedRequests + mtx(lb).RateLimitedRequests
+//@ pred reqOK(lb *LoadBalancer, r *http.Request) := r != nil && r.URL != nil
+//@ pred passiveOK(lb *LoadBalancer) := lb.healthChecks.unhealthyBackends != nil && lb.healthChecks.passiveThreshold >= 1
+//@      && (forall n string :: {lb.healthChecks.unhealthyBackends[n]} failCount(lb, n) >= 0 && failCount(lb, n) < lb.healthChecks.passiveThreshold)
+//@ pred below2to63(lb *LoadBalancer) := mtx(lb).SuccessfulRequests < 9223372036854775808 && mtx(lb).FailedRequests < 9223372036854775808
+//@      && mtx(lb).RateLimitedRequests < 9223372036854775808
+
+//@ func (*LoadBalancer).recordRequestMetrics
+//@   props C04 C13
+//@   requires backend != nil && reqOK(lb, r) && lbOK(lb) && idle(lb) && bmCellsOK(lb.metricsCollector) && passiveOK(lb) && below2to63(lb)
+//@   ensures one_outcome: outcomes(lb) == old(outcomes(lb)) + 1 && mtx(lb).RateLimitedRequests == old(mtx(lb).RateLimitedRequests)
+//@   ensures classified_ok: statusCode < 500 ==> mtx(lb).SuccessfulRequests == old(mtx(lb).SuccessfulRequests) + 1 && mtx(lb).FailedRequests == old(mtx(lb).FailedRequests)
+//@   ensures classified_failed: statusCode >= 500 ==> mtx(lb).FailedRequests == old(mtx(lb).FailedRequests) + 1 && mtx(lb).SuccessfulRequests == old(mtx(lb).SuccessfulRequests)
+//@   ensures good_response_never_ejects: statusCode < 500 ==> backend.IsHealthy == old(backend.IsHealthy) && backend.UnhealthyUntil == old(backend.UnhealthyUntil)
+//@             && failCount(lb, backend.Name) == old(failCount(lb, backend.Name))
+//@   ensures eject_only_at_threshold: statusCode >= 500 && lb.healthChecks.passiveEnabled && old(failCount(lb, backend.Name)) + 1 < lb.healthChecks.passiveThreshold
+//@             ==> backend.IsHealthy == old(backend.IsHealthy) && failCount(lb, backend.Name) == old(failCount(lb, backend.Name)) + 1
+//@   ensures eject_at_threshold: statusCode >= 500 && lb.healthChecks.passiveEnabled && old(failCount(lb, backend.Name)) + 1 >= lb.healthChecks.passiveThreshold
+//@             ==> !backend.IsHealthy && backend.UnhealthyUntil == now() + lb.healthChecks.passiveTimeout && failCount(lb, backend.Name) == 0
+//@   ensures passive_off: !lb.healthChecks.passiveEnabled ==> backend.IsHealthy == old(backend.IsHealthy)
+//@   ensures kept_cells: bmCellsOK(lb.metricsCollector)
+//@   ensures kept_passive: passiveOK(lb)
+//@   ensures kept_total: mtx(lb).TotalRequests == old(mtx(lb).TotalRequests)
+//@   modifies backend.IsHealthy, backend.UnhealthyUntil, mapof(lb.healthChecks.unhealthyBackends), mapof(lb.metricsCollector.metrics.BackendMetrics),
+//@            metrics.BackendMetrics.IsHealthy, metrics.BackendMetrics.LastHealthCheck, metrics.BackendMetrics.TotalRequests, metrics.BackendMetrics.SuccessfulRequests,
+//@            metrics.BackendMetrics.FailedRequests, metrics.BackendMetrics.AverageResponseTime, metrics.Metrics.SuccessfulRequests, metrics.Metrics.FailedRequests, metrics.Metrics.avgResponseTimeBits
+
+//@ func (*LoadBalancer).proxyRequest
+//@   props C07 C13
+//@   may_panic
+//@   requires backend != nil && backend.ReverseProxy != nil && reqOK(lb, r) && lbOK(lb) && idle(lb) && bmCellsOK(lb.metricsCollector) && passiveOK(lb) && below2to63(lb)
+//@   ensures gauge_restored: backend.ActiveConnections == old(backend.ActiveConnections)
+//@   ensures one_outcome: outcomes(lb) == old(outcomes(lb)) + 1 && mtx(lb).RateLimitedRequests == old(mtx(lb).RateLimitedRequests)
+//@   ensures server_error_is_a_failure: (result != nil) == (mtx(lb).FailedRequests == old(mtx(lb).FailedRequests) + 1)
+//@   ensures error_is_sentinel: result == nil || result == errBackendFailure
+//@   ensures kept: bmCellsOK(lb.metricsCollector) && passiveOK(lb) && mtx(lb).TotalRequests == old(mtx(lb).TotalRequests)
+//@   ensures_panic gauge_restored_on_abort: backend.ActiveConnections == old(backend.ActiveConnections)
+//@   ensures_panic aborted_counts_as_failed: mtx(lb).FailedRequests == old(mtx(lb).FailedRequests) + 1 && outcomes(lb) == old(outcomes(lb)) + 1
+//@   ensures_panic kept_on_abort: bmCellsOK(lb.metricsCollector) && passiveOK(lb) && mtx(lb).TotalRequests == old(mtx(lb).TotalRequests)
+//@   modifies backend.ActiveConnections, Backend.IsHealthy, Backend.UnhealthyUntil, mapof(lb.healthChecks.unhealthyBackends), mapof(lb.metricsCollector.metrics.BackendMetrics),
+//@            metrics.BackendMetrics.IsHealthy, metrics.BackendMetrics.LastHealthCheck, metrics.BackendMetrics.TotalRequests, metrics.BackendMetrics.SuccessfulRequests,
+//@            metrics.BackendMetrics.FailedRequests, metrics.BackendMetrics.AverageResponseTime, metrics.BackendMetrics.ActiveConnections, metrics.Metrics.SuccessfulRequests,
+//@            metrics.Metrics.FailedRequests, metrics.Metrics.avgResponseTimeBits, responseWriter.statusCode, http.ResponseWriter.committed, http.ResponseWriter.status,
+//@            http.ResponseWriter.bodyLen, http.ResponseWriter.flushes, http.ResponseWriter.hijacked
+
+//@ pred proxiesOK(lb *LoadBalancer) := forall b *Backend :: inPool(lb, b) ==> b != nil && b.ReverseProxy != nil
+//@ pred servingOK(lb *LoadBalancer, r *http.Request) := reqOK(lb, r) && lbOK(lb) && idle(lb) && poolOK(lb) && proxiesOK(lb)
+//@      && bmCellsOK(lb.metricsCollector) && passiveOK(lb) && below2to63(lb)
+
+//@ func (*LoadBalancer).handleRequest
+//@   props C02 C07 C13
+//@   may_panic
+//@   requires servingOK(lb, r) && w != nil
+//@   ensures one_outcome: outcomes(lb) == old(outcomes(lb)) + 1 && mtx(lb).RateLimitedRequests == old(mtx(lb).RateLimitedRequests)
+//@   ensures error_iff_failed_proxied_request: result == nil || result == errBackendFailure
+//@   ensures failure_is_counted: result != nil ==> mtx(lb).FailedRequests == old(mtx(lb).FailedRequests) + 1
+//@   ensures kept: bmCellsOK(lb.metricsCollector) && passiveOK(lb) && mtx(lb).TotalRequests == old(mtx(lb).TotalRequests)
+//@   ensures_panic aborted_counts_as_failed: mtx(lb).FailedRequests == old(mtx(lb).FailedRequests) + 1 && outcomes(lb) == old(outcomes(lb)) + 1
+//@   ensures_panic kept_on_abort: mtx(lb).TotalRequests == old(mtx(lb).TotalRequests) && mtx(lb).RateLimitedRequests == old(mtx(lb).RateLimitedRequests)
+//@   modifies Backend.ActiveConnections, Backend.IsHealthy, Backend.UnhealthyUntil, RoundRobinStrategy.current, weightedBackend.currentWeight,
+//@            mapof(lb.healthChecks.unhealthyBackends), mapof(lb.metricsCollector.metrics.BackendMetrics),
+//@            metrics.BackendMetrics.IsHealthy, metrics.BackendMetrics.LastHealthCheck, metrics.BackendMetrics.TotalRequests, metrics.BackendMetrics.SuccessfulRequests,
+//@            metrics.BackendMetrics.FailedRequests, metrics.BackendMetrics.AverageResponseTime, metrics.BackendMetrics.ActiveConnections, metrics.Metrics.SuccessfulRequests,
+//@            metrics.Metrics.FailedRequests, metrics.Metrics.avgResponseTimeBits, responseWriter.statusCode, http.ResponseWriter.committed, http.ResponseWriter.status,
+//@            http.ResponseWriter.bodyLen, http.ResponseWriter.flushes, http.ResponseWriter.hijacked
+
+//@ axiom errBackendFailure != circuitbreaker.ErrCircuitBreakerOpen && errBackendFailure != circuitbreaker.ErrTooManyRequests
+
+//@ pred limiterOK(lb *LoadBalancer) := lb.rateLimiter != nil ==> dyntype(lb.rateLimiter, *ratelimiter.TokenBucketRateLimiter) && ptr(lb.rateLimiter) != 0
+//@      && rlCfg(asptr(lb.rateLimiter, *ratelimiter.TokenBucketRateLimiter)) && mapInv(asptr(lb.rateLimiter, *ratelimiter.TokenBucketRateLimiter))
+//@      && (forall x *ratelimiter.bucket :: {x.mutex} unlocked(x.mutex))
+//@ pred breakerOK(lb *LoadBalancer) := lb.circuitBreaker != nil ==> unlocked(lb.circuitBreaker.mutex) && cbInv(lb.circuitBreaker)
+
+//@ func (*LoadBalancer).checkRateLimit
+//@   props C09 C13
+//@   requires reqOK(lb, r) && r.Header != nil && w != nil && lbOK(lb) && limiterOK(lb) && below2to63(lb)
+//@   ensures allowed_untouched: result ==> outcomes(lb) == old(outcomes(lb)) && mtx(lb).RateLimitedRequests == old(mtx(lb).RateLimitedRequests)
+//@   ensures limited_429: !result ==> mtx(lb).RateLimitedRequests == old(mtx(lb).RateLimitedRequests) + 1 && outcomes(lb) == old(outcomes(lb)) + 1
+//@             && (!old(w.committed) ==> w.committed && w.status == 429)
+//@   ensures no_limiter: lb.rateLimiter == nil ==> result
+//@   ensures kept: limiterOK(lb) && mtx(lb).TotalRequests == old(mtx(lb).TotalRequests)
+//@   modifies metrics.Metrics.RateLimitedRequests, http.ResponseWriter.committed, http.ResponseWriter.status, http.ResponseWriter.bodyLen,
+//@            ratelimiter.TokenBucketRateLimiter.buckets, ratelimiter.bucket.tokens, ratelimiter.bucket.lastRefill, ratelimiter.bucket.adm, ratelimiter.bucket.seen, ratelimiter.bucket.pre
+
+//@ func (*LoadBalancer).ServeHTTP
+//@   props C07 C09 C13
+//@   may_panic
+//@   requires servingOK(lb, r) && r.Header != nil && w != nil && limiterOK(lb) && breakerOK(lb) && mtx(lb).TotalRequests < 9223372036854775808
+//@   ensures every_request_counted_once: mtx(lb).TotalRequests == old(mtx(lb).TotalRequests) + 1 && outcomes(lb) == old(outcomes(lb)) + 1
+//@   ensures_panic aborted_request_counted_once: mtx(lb).TotalRequests == old(mtx(lb).TotalRequests) + 1 && outcomes(lb) == old(outcomes(lb)) + 1
+//@   modifies *
